@@ -107,6 +107,10 @@ DecInv ==
     LET F == FOf(fmt) x == ExpandSlow(ts) IN
     /\ d.pos <= Len(s) + 1
     /\ d.st = "hdr" => Decode(FOf(fmt), s, 0) = RunFrom(FOf(fmt), s, d)
+    \* the validating decoder accepts exactly the streams that decode to the expected output
+    /\ (d.st = "hdr" /\ (Len(x) > 0 \/ ~F.ext)) =>
+          LET r == Decode(F, s, 0) IN
+          (VRunSeq(F, s, 0, x).st = "done") <=> (r.st = "done" /\ r.out = x /\ r.declared = Len(x))
     /\ Len(d.out) <= d.declared \/ d.st = "hdr"
     /\ d.bits \in 0..8
     /\ var \in {"exact", "cut", "trail", "declplus", "declminus"} => IsPrefix(d.out, x)
@@ -120,6 +124,10 @@ DecInv ==
            [] var = "type"      -> d.st = "err" /\ d.why = "type"
            [] var = "before"    -> d.st = "err" /\ d.why = "before"
            [] var = "range"     -> d.st = "err" /\ d.why = "range"
+
+\* copying from a multiple of the period back continues a periodic output (used by PCopyOK)
+ASSUME \A pat \in {<<1>>, <<1, 2>>, <<1, 2, 1>>, <<1, 1, 2, 3>>} :
+         \A m \in 1..9, len \in 1..7, dd \in 1..9 : PeriodLemma(pat, m, len, dd)
 
 \* every step makes progress, so every run ends in a terminal class (DStep is
 \* total on non-terminal states: no stuck state other than done/err/open)
